@@ -1,4 +1,5 @@
 """C20 — the context-free transaction check accepts exactly the well-formed transactions, and never modifies them."""
+import hashlib
 import itertools
 
 from vmon.probe import shard_rng, observe
@@ -8,14 +9,23 @@ from vmon.gen import txgen as G
 PROPERTY = "C20"
 PRELOAD_NETWORK_ORDERS = [["btc", "xtn", "ltc", "bch", "grs", "doge", "dash", "btg"], ["btg", "grs", "bch", "doge", "ltc", "xtn", "btc"]]
 LEVEL = "exploration"
-TECHNIQUE = "two-sided oracle at Tx.check(): defect predicate written from the statement; before/after snapshots on returning and raising paths"
+TECHNIQUE = ("two-sided oracle at Tx.check(): defect predicate written from the statement; full before/after snapshots on returning and raising "
+             "paths across transaction size classes; every defect class crossed with every transaction kind")
 RULE = ("cases: (transaction class, transaction) pairs. Deterministic sweep: every listed defect alone and at every position "
         "(values 0,1,MAX-1,MAX,MAX+1,-1,2^63,2^64 at each output position; totals reaching MAX / MAX+1 only at the last output; the same "
         "outpoint at every pair of positions of 2..6 inputs; coinbase script lengths 0,1,2,3,99,100,101,...; the null outpoint and five "
         "near-null outpoints alone and at every position among siblings; sizes 999,999 / 1,000,000 / 1,000,001 total and witness-stripped, "
         "with and without witness data), then seeded random transactions with zero, one or two injected defects. Distinct by (class, "
         "defect set, field-shape vector); non-trivial when the transaction carries a defect or sits on one of the statement's boundaries "
-        "(every generated case does, except plain random well-formed ones, which count as non-trivial only when on a wire boundary).")
+        "(every generated case does, except plain random well-formed ones, which count as non-trivial only when on a wire boundary). "
+        "SIZE classes: recipes with 1, 2, 252-254, 1000, 1001, 2000, 5000 (thorough: 3000, 12000) inputs resp. outputs, elements listed in no "
+        "particular order / ascending / descending, with and without witness, unspents attached in full / with holes / one short / absent, "
+        "well-formed and with one late-found defect. KINDS: coinbase, coinbase with witness, coinbase with 1001 outputs, plain, segwit, partly "
+        "segwit, 1001-1500 inputs (random / sorted / with witness), 1001 outputs, both; on each kind every defect class (counts, single values at "
+        "first/middle/last position, totals reaching MAX / MAX+1, repeated outpoints incl. the same input object listed twice and (h,i)(h,j)(h,i), "
+        "null and near-null outpoints incl. a coinbase-shaped first input followed by 1..1001 inputs, coinbase script lengths, stripped and total "
+        "sizes 999,999 / 1,000,000 / 1,000,001 reached through one script, a witness item, 29,000 outputs or 5,000 inputs). Live histories: one "
+        "object of 253..5000 inputs edited one field at a time (and undone) between check() calls.")
 ASSUMPTIONS = [
     "'rejects' = check() raises any exception; 'accepts' = check() returns normally",
     "null outpoint = (32 zero bytes, index 2^32-1); coinbase = exactly one input and that input's outpoint is the null outpoint",
@@ -24,10 +34,17 @@ ASSUMPTIONS = [
     "sizes are those of the reference serialisation (vmon/refs/txser.py, self-tested); a transaction without defects whose stripped size "
     "is <= 1,000,000 but whose total size is larger is not decided by the statement: it is executed, counted, and never judged",
     "is_coinbase() is compared with the statement's definition of a coinbase, since the statement's rules are phrased in terms of it",
+    "'never modifies the transaction' is read on what a caller can see: as_bin() with and without witness data, id(), w_id(), the identity of the "
+    "txs_in / txs_out / unspents lists, identity and order of their elements, and every field of every element; extra private attributes are not looked at",
+    "the same TxIn object listed at two positions spends one outpoint twice (duplicate_outpoint)",
+    "how the object was made (constructor with witness lists / tuples / set_witness, or from_bin of the reference serialisation when that yields "
+    "exactly the intended fields) is not supposed to matter to check(): the same predicate judges all of them",
 ]
 EXPLANATION = ("defects(tx) is computed from the dict the transaction was built from; any defect => check() must raise, none and total size "
                "<= 1,000,000 => must return; fields, object order, unspents and as_bin() are compared before and after check() on both "
-               "paths; for every coinbase transaction bad_solution_count() must be 0")
+               "paths (also for a second check() on the same object, and between in-place edits of one live object); for every coinbase "
+               "transaction bad_solution_count() must be 0. Large transactions are described by recipes (pure functions of a small dict), so "
+               "stored cases stay small and replayable.")
 TIMEOUT = {"quick": 600, "thorough": 3 * 3600}
 
 NETS = ["BTC", "GRS", "LTC", "BCH", "BTG"]
@@ -49,11 +66,27 @@ def configurations(tier):
 
 
 def plan(tier, seed):
+    kinds = list(KINDS)
     if tier == "quick":
+        small = [k for k in kinds if not k.startswith("many") and k != "coinbase_manyout"]
+        big = [{"kind": "sizeclass", "classes": [5000], "full": False},
+               {"kind": "sizeclass", "classes": [2000], "full": False},
+               {"kind": "sizeclass", "classes": [1, 2, 252, 253, 254, 1000, 1001], "full": True},
+               {"kind": "sizekinds", "jobs": [["coinbase_29000out", "BTC", False], ["5000in", "GRS", False], ["segwit_29000out", "LTC", True]]},
+               {"kind": "kinds", "jobs": [["manyin_segwit", "BTC", True], ["manyinout", "BTC", True]]},
+               {"kind": "kinds", "jobs": [["manyout", "GRS", True], ["coinbase_manyout", "GRS", True]] + [[k, "BTC", False] for k in small]},
+               {"kind": "kinds", "jobs": [[k, n, True] for n in ("GRS", "LTC", "BCH", "BTG") for k in small]},
+               {"kind": "bighist", "sizes": [2000, 1001, 1001, 253], "steps": [7, 10, 10, 10]}]
         return ([{"kind": "sweep", "net": n} for n in NETS] + [{"kind": "sizes", "net": n, "part": p} for n in ("BTC", "GRS") for p in (0, 1)] +
-                [{"kind": "random", "n": 9000} for _ in range(7)] + [{"kind": "history", "n": 12} for _ in range(3)])
+                [{"kind": "random", "n": 9000} for _ in range(7)] + [{"kind": "history", "n": 12} for _ in range(3)] + big)
+    big = ([{"kind": "sizeclass", "classes": [c], "full": True} for c in (5000, 5000, 2000, 3000, 1001, 1002, 1000)] +
+           [{"kind": "sizeclass", "classes": [1, 2, 3, 252, 253, 254, 255, 999], "full": True}, {"kind": "sizeclass", "classes": [12000], "full": False}] +
+           [{"kind": "sizekinds", "jobs": [[k, n, False] for n in NETS]} for k in SIZE_KINDS] +
+           [{"kind": "kinds", "jobs": [[k, n, False]]} for k in kinds if k.startswith("many") for n in NETS] +
+           [{"kind": "kinds", "jobs": [[k, n, False] for k in kinds if not k.startswith("many")]} for n in NETS] +
+           [{"kind": "bighist", "sizes": [1001, 2000, 5000, 1001, 254, 1000], "steps": [30] * 6} for _ in range(6)])
     return ([{"kind": "sweep", "net": n} for n in NETS] + [{"kind": "sizes", "net": n, "part": p} for n in ("BTC", "GRS", "LTC") for p in (0, 1)] +
-            [{"kind": "random", "n": 180000} for _ in range(12)] + [{"kind": "history", "n": 400} for _ in range(6)])
+            [{"kind": "random", "n": 180000} for _ in range(12)] + [{"kind": "history", "n": 400} for _ in range(6)] + big)
 
 
 # ---------------------------------------------------------------------------------------------
@@ -143,6 +176,46 @@ def selftest(rec):
         n += 3
     assert defects(G.simple_tx(value=MAXES["BTC"] + 1), MAXES["GRS"]) == []
     out["predicate_laws"] = 30 + n
+    # the recipe builder: what the size-class / kind workloads rely on
+    m = 0
+    for name, base in list(KINDS.items()) + list(SIZE_KINDS.items()):
+        d, alias = big_tx(_rc(base))
+        assert defects(d, MAX) == [] and not alias and is_coinbase_ref(d) == bool(base.get("coinbase")), name
+        assert (len(d["ins"]), len(d["outs"])) == (base["n_in"], base["n_out"]), name
+        assert big_tx(_rc(base))[0] == d                      # a pure function of the recipe
+        if name in SIZE_KINDS:
+            assert LIMIT - 60000 < len(R.serialize(d, with_witness=False)) < LIMIT - 1, name
+        m += 1
+    for n_in in (3, 253, 1001, 5000):
+        pts = lambda d: [(i["prev"], i["index"]) for i in d["ins"]]
+        r = pts(big_tx({"n_in": n_in, "n_out": 3, "tag": n_in})[0])
+        a = pts(big_tx({"n_in": n_in, "n_out": 3, "tag": n_in, "order": "asc"})[0])
+        z = pts(big_tx({"n_in": n_in, "n_out": 3, "tag": n_in, "order": "desc"})[0])
+        assert a == sorted(r) and z == a[::-1] and r != a and r != z and len(set(r)) == n_in
+        assert len({p for p, _ in r}) < n_in or n_in < 4      # some inputs share the previous transaction
+        vals = [o["value"] for o in big_tx({"n_in": 1, "n_out": n_in, "tag": n_in})[0]["outs"]]
+        assert n_in < 10 or (vals != sorted(vals) and vals != sorted(vals, reverse=True))
+        m += 1
+    for label, rc, _ in purity_recipes([2, 253, 1001]):
+        d, alias = big_tx(rc)
+        wellformed = label.startswith(("inputs=", "outputs="))
+        assert (defects(d, MAXES["GRS"]) == []) == wellformed and (defects(d, MAX) == []) == wellformed, label
+        m += 1
+    for kd in KINDS:
+        seen = set()
+        for label, rc in kind_recipes(kd, MAX, light=kd.startswith("many")):
+            d, alias = big_tx(rc)
+            seen.update(defects(d, MAX) or ["none"])
+            for t in TARGETS:
+                if label.startswith("stripped=%d " % t):
+                    assert len(R.serialize(d, with_witness=False)) == t, (kd, label)
+                if label.startswith("total=%d " % t):
+                    assert len(R.serialize(d)) == t, (kd, label)
+            m += 1
+        need = {"none", "no_inputs", "no_outputs", "value_out_of_range", "total_out_of_range", "duplicate_outpoint", "null_outpoint_in_non_coinbase",
+                "stripped_size_over_limit"} | ({"coinbase_script_size"} if KINDS[kd].get("coinbase") else set())
+        assert need <= seen, (kd, need - seen)       # every defect class of the statement occurs on every kind
+    out["recipe_laws"] = m
     return out
 
 
@@ -191,16 +264,30 @@ def _nets(rec=None):
     return nets
 
 
-def _snapshot(tx):
-    st, b = observe(tx.as_bin)
+def _quiet(fn, *a, **kw):
+    st, v = observe(fn, *a, **kw)
+    return v if st == "ok" else "raises " + type(v).__name__
+
+
+def _snapshot(tx, full=True):
+    """everything a caller can read off the transaction: the two serialisations, both ids, identity and order of the three
+    containers and of their elements, every field of every element"""
+    uns = tx.unspents
+    small = full and len(tx.txs_in) + len(tx.txs_out) <= 3000
     return {"fields": G.from_pycoin(tx), "in_ids": [id(t) for t in tx.txs_in], "out_ids": [id(t) for t in tx.txs_out],
             "lists": (id(tx.txs_in), id(tx.txs_out)),
-            "unspents": [None if u is None else (u.coin_value, bytes(u.script)) for u in (tx.unspents or [])],
-            "as_bin": b if st == "ok" else "raises " + type(b).__name__}
+            "unspents": None if uns is None else [None if u is None else (u.coin_value, bytes(u.script)) for u in uns],
+            "unspent_ids": (id(uns), None if uns is None else [id(u) for u in uns]),
+            "as_bin": _quiet(tx.as_bin), "as_bin_stripped": _quiet(tx.as_bin, include_witness_data=False) if full else None,
+            # the ids are functions of the two serialisations; asked for as well unless the transaction has thousands of elements
+            "id": _quiet(tx.id) if small else None, "w_id": _quiet(tx.w_id) if small else None}
+
+
+SNAP_KEYS = ("as_bin", "as_bin_stripped", "id", "w_id", "fields", "in_ids", "out_ids", "lists", "unspents", "unspent_ids")
 
 
 def _snap_diff(a, b):
-    for k in ("as_bin", "fields", "in_ids", "out_ids", "lists", "unspents"):
+    for k in SNAP_KEYS:
         if a[k] != b[k]:
             if k == "fields":
                 return "fields." + str(G.first_difference(a[k], b[k]))
@@ -208,23 +295,59 @@ def _snap_diff(a, b):
     return None
 
 
-def _check_one(net, T, d, rec, label=None, with_unspents=False):
+def _attach_unspents(T, tx, mode):
+    """unspents as a caller would have them: one per input (values in no particular order), one short (an input was appended after
+    set_unspents), or with holes (unspents_from_db(ignore_missing=True))"""
+    n = len(tx.txs_in)
+    if not mode or not n:
+        return
+    full = [T.TxOut(1000 + (k * 7919) % 1009, bytes([0x51 + k % 5]) * (1 + k % 3)) for k in range(n)]
+    if mode == "holes":
+        full = [None if k % 4 == 1 else u for k, u in enumerate(full)]
+    tx.set_unspents(full)
+    if mode == "short":
+        tx.unspents = full[:-1]
+
+
+def _make(T, d, via):
+    """the object, made the way a caller might make it: constructed (witness assigned as list / as tuple / through set_witness) or
+    parsed from its serialisation (only when that gives back exactly the fields of d; parsing itself is another property's subject)"""
+    if via == "from_bin":
+        if d["ins"] and d["outs"] and serialisable(d):
+            st, tx = observe(T.from_bin, R.serialize(d))
+            if st == "ok" and G.from_pycoin(tx) == G.norm(d):
+                return tx, via
+        via = "attr"
+    return G.to_pycoin(T, d, witness_via=via), via
+
+
+def _check_one(net, T, d, rec, label=None, with_unspents=False, case=None, alias=(), second=False, full_snapshot=True, via="attr"):
+    """d: the dict the transaction is built from. case: what is stored for replay (default: the packed dict). alias: pairs (a, b) of
+    input positions holding the SAME TxIn object (d must list equal entries there). with_unspents: False / True ("full") / "short" / "holes".
+    second: run check() a second time on the same object and demand the same verdict and still no modification."""
     MAX = MAXES[net]
-    case = {"net": net, "tx": G.pack(d)}
-    if label:
-        case["label"] = label
+    if case is None:
+        case = {"net": net, "tx": G.pack(d)}
+        if label:
+            case["label"] = label
     dfx = defects(d, MAX)
     cb = is_coinbase_ref(d)
     total_size = len(R.serialize(d)) if serialisable(d) else None
     nontrivial = bool(dfx) or bool(label) or G.on_boundary(d)
     rec.case((net, tuple(dfx), G.shape(d), tuple((i["prev"] == G.NULL_HASH, i["index"] == G.NULL_INDEX) for i in d["ins"][:8]),
-              total_size if (total_size or 0) > 900000 else 0), nontrivial=nontrivial)
-    st, tx = observe(G.to_pycoin, T, d)
+              total_size if (total_size or 0) > 900000 else 0, label if "recipe" in case else None), nontrivial=nontrivial)
+    st, tx = observe(_make, T, d, via)
     if st != "ok":
         rec.violation("construct.raises", case, tx, "object")
         return
+    tx, via = tx
+    rec.ev("made_via." + via)
+    if via != "attr":
+        case = dict(case, via=via)
+    for a, b in alias:
+        tx.txs_in[b] = tx.txs_in[a]
     if with_unspents and d["ins"]:
-        tx.set_unspents([T.TxOut(1000 + k, b"\x51") for k in range(len(d["ins"]))])
+        _attach_unspents(T, tx, "full" if with_unspents is True else with_unspents)
     # coinbase detection
     rec.ev("Tx.is_coinbase")
     st, ic = observe(tx.is_coinbase)
@@ -236,10 +359,10 @@ def _check_one(net, T, d, rec, label=None, with_unspents=False):
         else:
             rec.violation("is_coinbase.mismatch", case, ic, cb)
     # the check itself, with snapshots on both paths
-    before = _snapshot(tx)
+    before = _snapshot(tx, full_snapshot)
     rec.ev("Tx.check")
     st, r = observe(tx.check)
-    after = _snapshot(tx)
+    after = _snapshot(tx, full_snapshot)
     rec.ev("check.returned" if st == "ok" else "check.raised")
     if st != "ok":
         rec.ev("check.raised." + type(r).__name__)
@@ -262,11 +385,22 @@ def _check_one(net, T, d, rec, label=None, with_unspents=False):
                 rec.violation("check.rejects_wellformed", case, r, "return")
     else:
         rec.ev("undecided.stripped_le_limit_lt_total")
+    if second:
+        # the same object again: same verdict, still untouched
+        rec.ev("Tx.check(second)")
+        st2, r2 = observe(tx.check)
+        if dfx and st2 == "ok":
+            rec.violation("check.second_call.accepts_defective", dict(case, defects=dfx), "returned", "raise")
+        elif not dfx and total_size is not None and total_size <= LIMIT and st2 != "ok" and not zero_hash_non_null(d):
+            rec.violation("check.second_call.rejects_wellformed", case, r2, "return")
+        diff = _snap_diff(before, _snapshot(tx, full_snapshot))
+        if diff:
+            rec.violation("check.mutates_tx.second_call", case, diff, "unchanged")
     # a coinbase is never counted as having unsigned inputs
     if cb:
         rec.ev("Tx.bad_solution_count(coinbase)")
-        st, n = observe(tx.bad_solution_count)
-        if st != "ok" or n != 0:
+        st_, n = observe(tx.bad_solution_count)
+        if st_ != "ok" or n != 0:
             rec.violation("coinbase.counted_as_unsigned", case, n, 0)
     return st
 
@@ -414,6 +548,453 @@ def size_cases(part):
         yield "stripped=%d, witness 300k" % (LIMIT - 50_000), sized_tx(LIMIT - 50_000, True, 300_000, "in_script")
 
 
+# ---------------------------------------------------------------------------------------------
+# recipes: transactions of every SIZE class and KIND, described compactly (stored cases stay small and replayable).
+# A recipe is {"n_in", "n_out", "order", "out_order", "wit", "coinbase", "script_len", "out_script_len", "tag", "edits": [...]};
+# big_tx(recipe) is a pure function of it.
+
+SIZE_CLASSES = [1, 2, 252, 253, 254, 1000, 1001, 2000, 5000]
+
+
+def _h(tag, k, what=b"i"):
+    return hashlib.sha256(b"c20|%s|%d|%d" % (what, tag, k)).digest()
+
+
+def _fill(h, n):
+    return (h * (n // 32 + 1))[:n]
+
+
+def big_tx(rc):
+    """the transaction a recipe describes: outpoints, scripts, sequences, witnesses, values are all different from one element to
+    the next and in no particular order ("rand"), or listed in ascending / descending order of outpoint (inputs) or value (outputs)"""
+    tag = rc.get("tag", 0)
+    n_in, n_out = rc["n_in"], rc["n_out"]
+    wit = rc.get("wit", "none")
+    if rc.get("coinbase"):
+        sl = rc.get("script_len", 4)
+        h = _h(tag, 0)
+        ins = [{"prev": G.NULL_HASH, "index": G.NULL_INDEX, "script": (b"\x03" + _fill(h, sl))[:sl], "sequence": 0xffffffff,
+                "witness": [b"\0" * 32] if wit != "none" else []}]
+    else:
+        sl = rc.get("script_len", 1)
+        ins = []
+        for k in range(n_in):
+            h = _h(tag, k)
+            if (k // 2) % 3 == 0:
+                # two inputs spending two outputs of one previous transaction (equal hashes, different indices, either order)
+                g = _h(tag, k - k % 2, b"g")
+                prev, index = g, g[0] + ((k % 2) ^ (g[2] & 1)) * (1 + g[1])
+            else:
+                prev, index = h, h[0] % 50
+            w = []
+            if wit == "all" or (wit == "odd" and k % 2) or (wit == "last" and k == n_in - 1) or (wit == "first" and k == 0):
+                w = [h[:1 + k % 4], h[4:4 + k % 3]]
+            ins.append({"prev": prev, "index": index, "script": _fill(h[8:] + h[:8], sl), "sequence": 0xffffffff - h[7] % 3, "witness": w})
+        order = rc.get("order", "rand")
+        if order in ("asc", "desc"):
+            ins.sort(key=lambda i: (i["prev"], i["index"]), reverse=(order == "desc"))
+    osl = rc.get("out_script_len", 25)
+    outs = []
+    for j in range(n_out):
+        h = _h(tag, j, b"o")
+        outs.append({"value": int.from_bytes(h[:3], "big"), "script": _fill(h[3:] + h[:3], osl)})
+    out_order = rc.get("out_order", "rand")
+    if out_order in ("asc", "desc"):
+        outs.sort(key=lambda o: (o["value"], o["script"]), reverse=(out_order == "desc"))
+    d = {"version": 1 + tag % 2, "ins": ins, "outs": outs, "lock_time": tag % 3}
+    alias = apply_edits(d, rc.get("edits") or [])
+    return d, alias
+
+
+def _pad_to(d, target, stripped, where, pos):
+    """re-size one script / witness item so that the (stripped or total) reference size is exactly `target`"""
+    def size():
+        return len(R.serialize(d, with_witness=not stripped))
+
+    def cur():
+        if where == "in_script":
+            return len(d["ins"][pos]["script"])
+        if where == "out_script":
+            return len(d["outs"][pos]["script"])
+        w = d["ins"][pos]["witness"]
+        return len(w[0]) if w else 0
+
+    def setpad(n):
+        if where == "in_script":
+            d["ins"][pos]["script"] = b"\x51" * n
+        elif where == "out_script":
+            d["outs"][pos]["script"] = b"\x6a" * n
+        else:
+            d["ins"][pos]["witness"] = [b"\x33" * n] + list(d["ins"][pos]["witness"][1:])
+    n = cur()
+    for _ in range(12):
+        delta = target - size()
+        if delta == 0:
+            return
+        n += delta
+        if n < 0:
+            raise AssertionError("cannot shrink to size %d" % target)
+        setpad(n)
+    raise AssertionError("cannot hit size %d" % target)
+
+
+def _fresh_in(k):
+    h = _h(999, k, b"x")
+    return {"prev": h, "index": k % 11, "script": b"\x51", "sequence": 0xfffffffe, "witness": []}
+
+
+def apply_edits(d, edits):
+    """edit one field (or one element) at a time; returns the pairs of input positions that must hold the same TxIn object"""
+    alias = []
+    for e in edits:
+        op = e[0]
+        if op == "value":
+            d["outs"][e[1]]["value"] = e[2]
+        elif op == "values_all":
+            for o in d["outs"]:
+                o["value"] = e[1]
+        elif op == "dup":           # input e[2] spends the outpoint of input e[1] (everything else about it stays different)
+            d["ins"][e[2]]["prev"], d["ins"][e[2]]["index"] = d["ins"][e[1]]["prev"], d["ins"][e[1]]["index"]
+        elif op == "sibling":       # input e[2] spends ANOTHER output of the transaction input e[1] spends
+            d["ins"][e[2]]["prev"], d["ins"][e[2]]["index"] = d["ins"][e[1]]["prev"], d["ins"][e[1]]["index"] + 1000 + e[2]
+        elif op == "alias":         # the same input object listed at both positions
+            a, b = e[1] % len(d["ins"]), e[2] % len(d["ins"])
+            d["ins"][b] = dict(d["ins"][a], witness=list(d["ins"][a]["witness"]))
+            alias.append((a, b))
+        elif op == "null":
+            _set_pt(d, e[1], NULL)
+        elif op == "nearnull":
+            _set_pt(d, e[1], NEAR_NULL[e[2]])
+        elif op == "in_script":
+            d["ins"][e[1]]["script"] = b"\x51" * e[2]
+        elif op == "out_script":
+            d["outs"][e[1]]["script"] = b"\x6a" * e[2]
+        elif op == "witness":
+            d["ins"][e[1]]["witness"] = [b"\x33" * n for n in e[2]]
+        elif op == "append_ins":    # e[1] more ordinary inputs after the existing ones
+            base = len(d["ins"])
+            d["ins"].extend(_fresh_in(base + k) for k in range(e[1]))
+        elif op == "insert_null":   # an input with the null outpoint and an e[2]-byte script at position e[1]
+            d["ins"].insert(e[1], {"prev": G.NULL_HASH, "index": G.NULL_INDEX, "script": b"\x52" * e[2], "sequence": 0xffffffff, "witness": []})
+        elif op == "swap_in":
+            d["ins"][e[1]], d["ins"][e[2]] = d["ins"][e[2]], d["ins"][e[1]]
+        elif op == "drop_ins":
+            d["ins"] = []
+        elif op == "drop_outs":
+            d["outs"] = []
+        elif op == "pad":
+            _pad_to(d, e[1], bool(e[2]), e[3], e[4])
+        else:
+            raise AssertionError("unknown edit %r" % (e,))
+    return alias
+
+
+def _rc(base, edits=(), **kw):
+    r = dict(base)
+    r.update(kw)
+    r["edits"] = [list(e) for e in edits]
+    return r
+
+
+def _positions(n):
+    return sorted({0, n // 2, n - 1}) if n else []
+
+
+def purity_recipes(classes, rejected=True, full=True):
+    """SIZE classes: every input count / output count class x order of the elements x witness, well-formed (check returns) and with one
+    defect that is only found late in check() (check raises); yields (label, recipe, unspents mode)"""
+    umodes = ["full", "holes", False, "short"]
+    k = 0
+    for n in classes:
+        # many inputs
+        for order in ("rand", "asc", "desc"):
+            for wit in ("none", "odd"):
+                if not full and (order, wit) in (("desc", "odd"), ("asc", "odd"), ("desc", "none")):
+                    continue
+                k += 1
+                yield "inputs=%d %s wit=%s" % (n, order, wit), _rc({"n_in": n, "n_out": 2, "order": order, "wit": wit, "tag": n + k}), umodes[k % 4]
+        # many outputs
+        for out_order in ("rand", "asc", "desc"):
+            k += 1
+            yield "outputs=%d %s" % (n, out_order), _rc({"n_in": 1 + k % 2, "n_out": n, "out_order": out_order, "wit": ("none", "all")[k % 2], "tag": n + k}), umodes[k % 4]
+        if n >= 1000 and n <= 2000:
+            k += 1
+            yield "inputs=outputs=%d" % n, _rc({"n_in": n, "n_out": n, "wit": "last", "tag": n + k}), "full"
+        if not rejected:
+            continue
+        base = {"n_in": n, "n_out": 3, "wit": "odd" if n % 2 else "none", "tag": n}
+        obase = {"n_in": 2, "n_out": n, "tag": n + 1}
+        rej = []
+        if n >= 2:
+            rej += [("dup first/last", base, [["dup", 0, n - 1]]), ("dup neighbours", base, [["dup", n // 2, n // 2 - 1]]),
+                    ("same object twice", base, [["alias", n // 3, n - 1]]), ("null outpoint last", base, [["null", n - 1]]),
+                    ("null outpoint first", base, [["null", 0], ["in_script", 0, 4]])]
+        rej += [("oversize", base, [["in_script", n // 2, LIMIT]]), ("value last", obase, [["value", n - 1, -1]]),
+                ("value first", obase, [["value", 0, MAXES["GRS"] + 1]]),
+                ("total at last", obase, [["value", 0, MAXES["GRS"]], ["value", n - 1, 1]] if n > 1 else [["value", 0, -5]]),
+                ("no outputs", base, [["drop_outs"]]), ("oversize outputs", obase, [["out_script", n // 2, LIMIT]])]
+        for label, b, edits in rej:
+            if not full and label in ("dup neighbours", "null outpoint first", "value first", "no outputs", "oversize") or (
+                    not full and n >= 5000 and label == "null outpoint last"):
+                continue
+            k += 1
+            yield "%s of %d" % (label, n), _rc(b, edits), umodes[k % 4]
+
+
+KINDS = {
+    "coinbase": {"n_in": 1, "n_out": 2, "coinbase": True, "tag": 1},
+    "coinbase_wit": {"n_in": 1, "n_out": 3, "coinbase": True, "wit": "all", "tag": 2},
+    "coinbase_manyout": {"n_in": 1, "n_out": 1001, "coinbase": True, "tag": 3},
+    "plain": {"n_in": 2, "n_out": 2, "tag": 4},
+    "segwit": {"n_in": 3, "n_out": 2, "wit": "all", "tag": 5},
+    "segwit_partial": {"n_in": 4, "n_out": 2, "wit": "odd", "tag": 6},
+    "manyin": {"n_in": 1001, "n_out": 2, "tag": 7},
+    "manyin_segwit": {"n_in": 1002, "n_out": 2, "wit": "odd", "tag": 8},
+    "manyin_sorted": {"n_in": 1500, "n_out": 2, "order": "asc", "tag": 9},
+    "manyout": {"n_in": 2, "n_out": 1001, "tag": 10},
+    "manyinout": {"n_in": 1001, "n_out": 1001, "wit": "last", "tag": 11},
+}
+# kinds whose size comes from the NUMBER of elements (about 986,000 bytes before padding)
+SIZE_KINDS = {
+    "coinbase_29000out": {"n_in": 1, "n_out": 29000, "coinbase": True, "tag": 21},
+    "coinbase_wit_29000out": {"n_in": 1, "n_out": 29000, "coinbase": True, "wit": "all", "tag": 22},
+    "29000out": {"n_in": 2, "n_out": 29000, "tag": 23},
+    "segwit_29000out": {"n_in": 2, "n_out": 29000, "wit": "all", "tag": 24},
+    "5000in": {"n_in": 5000, "n_out": 2, "script_len": 150, "tag": 25},
+    "5000in_segwit": {"n_in": 5000, "n_out": 2, "script_len": 150, "wit": "odd", "tag": 26},
+}
+TARGETS = (LIMIT - 1, LIMIT, LIMIT + 1)
+
+
+def kind_recipes(kind, MAX, light=False):
+    """every defect class of the statement on one KIND of transaction; yields (label, recipe)"""
+    base = KINDS[kind]
+    n_in, n_out, cb = base["n_in"], base["n_out"], bool(base.get("coinbase"))
+    has_wit = base.get("wit", "none") != "none"
+    yield "wellformed", _rc(base)
+    # counts
+    yield "no inputs", _rc(base, [["drop_ins"]])
+    yield "no outputs", _rc(base, [["drop_outs"]])
+    yield "nothing", _rc(base, [["drop_ins"], ["drop_outs"]])
+    # single values
+    for pos in (_positions(n_out) if not light else [n_out - 1]):
+        for v in ((0, MAX, MAX + 1, -1, 1 << 63, 1 << 64) if not light else (MAX, MAX + 1, -1)):
+            yield "only value %d at %d" % (v, pos), _rc(base, [["values_all", 0], ["value", pos, v]])
+        yield "value MAX at %d among others" % pos, _rc(base, [["value", pos, MAX]])
+    # totals
+    for pos in ((0, n_out - 1) if not light else (n_out - 1,)):
+        for over in (0, 1):
+            yield "total MAX+%d big at %d" % (over, pos), _rc(base, [["values_all", 1], ["value", pos, MAX - (n_out - 1) + over]])
+    yield "total crosses in the middle", _rc(base, [["values_all", 0], ["value", 0, MAX], ["value", n_out // 2, 1]])
+    # outpoints
+    if cb:
+        for L in (0, 1, 2, 3, 100, 101, 253):
+            yield "coinbase script %d" % L, _rc(base, [["in_script", 0, L]])
+        yield "second null input", _rc(base, [["insert_null", 1, 4]])
+        yield "null input before", _rc(base, [["insert_null", 0, 200]])
+        for more in (1, 2, 1000, 1001) if not light else (1, 1001):
+            yield "coinbase-shaped first input + %d" % more, _rc(base, [["append_ins", more]])
+            yield "coinbase-shaped first input + %d, one spent twice" % more, _rc(base, [["append_ins", more + 1], ["dup", 1, -1]])
+        for j in range(len(NEAR_NULL)):
+            yield "near-null single %d" % j, _rc(base, [["nearnull", 0, j]])
+            yield "near-null single %d, long script" % j, _rc(base, [["nearnull", 0, j], ["in_script", 0, 150]])
+    else:
+        pairs = sorted({(0, n_in - 1), (n_in - 1, 0), (n_in // 2, n_in // 2 - 1), (n_in - 2, n_in - 1), (0, 1)} - {(0, 0), (-1, 0)})
+        for a, b in pairs:
+            if 0 <= a < n_in and 0 <= b < n_in and a != b:
+                yield "dup %d->%d" % (a, b), _rc(base, [["dup", a, b]])
+        yield "same object twice", _rc(base, [["alias", 0, n_in - 1]])
+        yield "same object twice, neighbours", _rc(base, [["alias", n_in // 2, n_in // 2 - 1]])
+        yield "three times one outpoint", _rc(base, [["append_ins", 1], ["dup", 0, n_in - 1], ["dup", 0, -1]])
+        for pos in (_positions(n_in) if not light else [n_in - 1]):
+            yield "null at %d" % pos, _rc(base, [["null", pos]])
+            yield "null at %d, coinbase-like script" % pos, _rc(base, [["null", pos], ["in_script", pos, 4]])
+            for j in (range(len(NEAR_NULL)) if not light else (0, 3)):
+                yield "near-null %d at %d" % (j, pos), _rc(base, [["nearnull", pos, j]])
+        if n_in >= 3:
+            # (h,i) (h,j) (h,i): another output of the same previous transaction between the two spends of one outpoint
+            yield "dup around a sibling output", _rc(base, [["sibling", 0, 1], ["dup", 0, 2]])
+            yield "dup around a sibling output, far", _rc(base, [["sibling", 0, n_in // 2], ["dup", 0, n_in - 1]])
+            yield "sibling outputs only", _rc(base, [["sibling", 0, 1], ["sibling", 0, n_in - 1]])
+        yield "two nulls", _rc(base, [["null", 0], ["null", n_in - 1]])
+        yield "null + value", _rc(base, [["null", n_in - 1], ["value", n_out - 1, MAX + 1]])
+        yield "coinbase-shaped first input", _rc(base, [["null", 0], ["in_script", 0, 4]])
+        for L in ((0, 1, 101) if not light else ()):
+            yield "first script %d" % L, _rc(base, [["in_script", 0, L]])
+    # sizes
+    for tgt in TARGETS:
+        if cb:
+            wheres = [("out_script", 0), ("out_script", -1)]
+        elif light:
+            wheres = [("in_script", n_in // 2)]
+        else:
+            wheres = [("in_script", 0), ("in_script", -1), ("out_script", -1)]
+        for where, pos in wheres:
+            yield "stripped=%d %s[%d]" % (tgt, where, pos), _rc(base, [["pad", tgt, 1, where, pos]])
+            if has_wit:
+                yield "total=%d %s[%d]" % (tgt, where, pos), _rc(base, [["pad", tgt, 0, where, pos]])
+        if has_wit:
+            wpos = 0 if cb else (n_in - 1)
+            yield "total=%d witness" % tgt, _rc(base, [["pad", tgt, 0, "witness", wpos]])
+            yield "stripped=%d witness 40k" % tgt, _rc(base, [["witness", wpos, [40000]], ["pad", tgt, 1, "out_script", 0]])
+        else:
+            # the same transaction given a witness afterwards: witness bytes do not count
+            yield "stripped=%d then witness" % tgt, _rc(base, [["pad", tgt, 1, "out_script", 0], ["witness", 0, [7, 0, 300]]])
+    if cb:
+        yield "oversize + short script", _rc(base, [["pad", LIMIT + 1, 1, "out_script", 0], ["in_script", 0, 1]])
+        yield "2 MB", _rc(base, [["out_script", 0, 2 * LIMIT]])
+
+
+def size_kind_recipes(kind):
+    base = SIZE_KINDS[kind]
+    cb = bool(base.get("coinbase"))
+    has_wit = base.get("wit", "none") != "none"
+    for tgt in TARGETS:
+        where = ("out_script", -1) if (cb or "out" in kind) else ("in_script", 2500)
+        yield "stripped=%d" % tgt, _rc(base, [["pad", tgt, 1, where[0], where[1]]])
+        if has_wit:
+            yield "total=%d" % tgt, _rc(base, [["pad", tgt, 0, where[0], where[1]]])
+
+
+def _run_recipe(net, T, rc, rec, label, unspents=False, second=False, via="attr"):
+    d, alias = big_tx(rc)
+    case = {"net": net, "label": label, "recipe": rc, "unspents": unspents or None, "second": bool(second)}
+    return _check_one(net, T, d, rec, label=label, with_unspents=unspents, case=case, alias=alias, second=second, via=via)
+
+
+# ---------------------------------------------------------------------------------------------
+# one big live object, edited in place one field at a time between check() calls
+
+LIVE_OPS = ["dup", "null", "alias_append", "swap", "sort", "reverse", "value_hi", "value_neg", "big_out_script", "witness", "relist",
+            "pop_out_all", "unspents_short", "coinbase_first"]
+
+
+def _apply_live(T, tx, op, MAX):
+    """apply one edit to the live object; returns the undo closure"""
+    name = op[0]
+    ins, outs = tx.txs_in, tx.txs_out
+    if name == "dup":
+        a, b = op[1] % len(ins), op[2] % len(ins)
+        old = (ins[b].previous_hash, ins[b].previous_index)
+        ins[b].previous_hash, ins[b].previous_index = ins[a].previous_hash, ins[a].previous_index
+
+        def undo():
+            ins[b].previous_hash, ins[b].previous_index = old
+    elif name in ("null", "coinbase_first"):
+        b = 0 if name == "coinbase_first" else op[1] % len(ins)
+        old = (ins[b].previous_hash, ins[b].previous_index, ins[b].script)
+        ins[b].previous_hash, ins[b].previous_index = G.NULL_HASH, G.NULL_INDEX
+        if name == "coinbase_first":
+            ins[b].script = b"\x03abc"
+
+        def undo():
+            ins[b].previous_hash, ins[b].previous_index, ins[b].script = old
+    elif name == "alias_append":
+        ins.append(ins[op[1] % len(ins)])
+
+        def undo():
+            ins.pop()
+    elif name == "swap":
+        a, b = op[1] % len(ins), op[2] % len(ins)
+        ins[a], ins[b] = ins[b], ins[a]
+
+        def undo():
+            ins[a], ins[b] = ins[b], ins[a]
+    elif name in ("sort", "reverse"):
+        saved = list(ins)
+        if name == "sort":
+            ins.sort(key=lambda t: (t.previous_hash, t.previous_index))
+        else:
+            ins.reverse()
+
+        def undo():
+            ins[:] = saved
+    elif name in ("value_hi", "value_neg"):
+        j = op[1] % len(outs)
+        old = outs[j].coin_value
+        outs[j].coin_value = MAX + 1 if name == "value_hi" else -1
+
+        def undo():
+            outs[j].coin_value = old
+    elif name == "big_out_script":
+        j = op[1] % len(outs)
+        old = outs[j].script
+        outs[j].script = b"\x6a" * op[2]
+
+        def undo():
+            outs[j].script = old
+    elif name == "witness":
+        b = op[1] % len(ins)
+        old = ins[b].witness
+        ins[b].witness = [b"\x30" * 72, b"\x02" * 33]
+
+        def undo():
+            ins[b].witness = old
+    elif name == "relist":
+        tx.txs_in = list(ins)
+
+        def undo():
+            pass
+    elif name == "pop_out_all":
+        saved = list(outs)
+        del outs[:]
+
+        def undo():
+            outs[:] = saved
+    elif name == "unspents_short":
+        old = tx.unspents
+        tx.unspents = list(old[:-1])
+
+        def undo():
+            tx.unspents = old
+    else:
+        raise AssertionError("unknown live op %r" % (op,))
+    return undo
+
+
+def big_history(net, T, rc, ops, rec, unspents="full"):
+    """ops: live edits and ["undo"] entries (undo the latest edit); after every entry check() is judged on the object's CURRENT
+    fields, with full before/after snapshots"""
+    MAX = MAXES[net]
+    d, alias = big_tx(rc)
+    tx = G.to_pycoin(T, d)
+    _attach_unspents(T, tx, unspents)
+    done = []
+    case = {"net": net, "live": {"recipe": rc, "unspents": unspents, "ops": done}}
+    _judge_live(net, T, tx, rec, ["build"], case=case)
+    undo = None
+    for op in ops:
+        if op[0] == "undo":
+            if undo is None:
+                continue
+            undo()
+            undo = None
+        else:
+            undo = _apply_live(T, tx, op, MAX)
+        done.append(list(op))
+        _judge_live(net, T, tx, rec, ["n_in=%d" % rc["n_in"]] + [o[0] for o in done[-3:]], case=case)
+
+
+def _rand_live_ops(rng, n_in, n_steps):
+    ops = []
+    for _ in range(n_steps):
+        name = rng.choice(LIVE_OPS)
+        if name in ("dup", "swap"):
+            a, b = rng.sample(range(n_in), 2)
+            if rng.random() < 0.3:
+                a, b = 0, n_in - 1
+            ops.append([name, a, b])
+        elif name == "big_out_script":
+            ops.append([name, rng.randrange(3), rng.choice([LIMIT, 2000, LIMIT - n_in * 150])])
+        elif name in ("sort", "reverse", "relist", "pop_out_all", "unspents_short", "coinbase_first"):
+            ops.append([name])
+        else:
+            ops.append([name, rng.randrange(n_in)])
+        if name not in ("sort", "reverse", "relist", "swap") or rng.random() < 0.3:
+            ops.append(["undo"])
+    return ops
+
+
 def _wellformed_random(rng, MAX):
     d = G.rand_tx(rng, distinct_outpoints=True, p_count_edge=0.01)
     if not d["outs"]:
@@ -428,6 +1009,7 @@ def _wellformed_random(rng, MAX):
     return d
 
 
+VIAS = ["attr", "attr", "attr", "from_bin", "attr", "tuple", "attr", "set_witness", "attr", "from_bin", "attr"]
 DEFECT_KINDS = ["value_hi", "value_neg", "total", "dup", "coinbase_short", "coinbase_long", "null_in_multi", "no_in", "no_out"]
 BENIGN_KINDS = ["none", "none", "coinbase_ok", "near_null", "near_null_single", "same_hash", "fill_to_max", "reorder"]
 
@@ -486,16 +1068,22 @@ def _inject(d, kind, rng, MAX):
     return d
 
 
-def _judge_live(net, T, tx, rec, hist):
-    """check() on a live object against the defect predicate of its CURRENT fields"""
+def _judge_live(net, T, tx, rec, hist, case=None):
+    """check() on a live object against the defect predicate of its CURRENT fields, with before/after snapshots"""
     d = G.from_pycoin(tx)
     MAX = MAXES[net]
     dfx = defects(d, MAX)
     total_size = len(R.serialize(d)) if serialisable(d) else None
+    before = _snapshot(tx)
     rec.ev("Tx.check(history)")
     st, r = observe(tx.check)
-    case = {"net": net, "history": list(hist), "final_shape": [len(d["ins"]), len(d["outs"]), total_size]}
+    diff = _snap_diff(before, _snapshot(tx))
+    if case is None:
+        case = {"net": net, "history": list(hist), "final_shape": [len(d["ins"]), len(d["outs"]), total_size]}
     rec.case((net, "hist", tuple(hist[-6:]), tuple(dfx), total_size if (total_size or 0) > 900000 else 0))
+    rec.ev("purity_snapshot(history)." + ("returning" if st == "ok" else "raising"))
+    if diff:
+        rec.violation("history.check_mutates_tx.%s_path" % ("returning" if st == "ok" else "raising"), case, diff, "unchanged")
     if dfx:
         if st == "ok":
             rec.violation("history.check_accepts_defective." + dfx[0], dict(case, defects=dfx), "returned", "raise")
@@ -504,58 +1092,99 @@ def _judge_live(net, T, tx, rec, hist):
             rec.violation("history.check_rejects_wellformed", case, r, "return")
 
 
+SMALL_OPS = ["grow_script", "shrink_script", "add_out", "pop_out", "value_hi", "value_ok", "dup_in", "undup_in", "null_in", "unnull_in", "big_witness",
+             "grow_out_script"]
+
+
+def _pick_small_op(rng, tx, MAX):
+    """one concrete in-place edit (name + parameters), or None when it does not apply to the object as it is now"""
+    e = rng.choice(SMALL_OPS)
+    if e == "grow_script":
+        return [e, rng.choice([LIMIT - 200, LIMIT, LIMIT + 10])]
+    if e == "shrink_script":
+        return [e, rng.choice([0, 5, 100])]
+    if e == "grow_out_script":
+        return [e, rng.choice([LIMIT - 300, LIMIT + 1])]
+    if e == "add_out":
+        return [e, rng.choice([0, 1, MAX, MAX + 1, 5000])]
+    if e == "pop_out":
+        return [e] if len(tx.txs_out) > 1 else None
+    if e == "value_hi":
+        return [e, rng.choice([MAX + 1, MAX, -1])]
+    if e == "value_ok":
+        return [e, [rng.choice([0, 1, 1000]) for _ in tx.txs_out]]
+    if e in ("dup_in", "null_in"):
+        return [e, rng.randrange(len(tx.txs_in))]
+    if e == "undup_in":
+        return [e] if len(tx.txs_in) > 1 else None
+    if e == "big_witness":
+        return [e, rng.choice([10, LIMIT])]
+    return [e]
+
+
+def _apply_small(T, tx, op):
+    e = op[0]
+    if e == "grow_script" or e == "shrink_script":
+        tx.txs_in[0].script = b"\x51" * op[1]
+    elif e == "grow_out_script":
+        tx.txs_out[-1].script = b"\x6a" * op[1]
+    elif e == "add_out":
+        tx.txs_out.append(T.TxOut(op[1], b"\x51"))
+    elif e == "pop_out":
+        tx.txs_out.pop()
+    elif e == "value_hi":
+        tx.txs_out[0].coin_value = op[1]
+    elif e == "value_ok":
+        for o, v in zip(tx.txs_out, op[1]):
+            o.coin_value = v
+    elif e == "dup_in":
+        t0 = tx.txs_in[op[1]]
+        tx.txs_in.append(T.TxIn(t0.previous_hash, t0.previous_index, b"\x51", 7))
+    elif e == "undup_in":
+        tx.txs_in.pop()
+    elif e == "null_in":
+        tx.txs_in[op[1]].previous_hash, tx.txs_in[op[1]].previous_index = G.NULL_HASH, G.NULL_INDEX
+    elif e == "unnull_in":
+        for k, ti in enumerate(tx.txs_in):
+            if ti.previous_hash == G.NULL_HASH:
+                ti.previous_hash = bytes([k + 1]) * 32
+    elif e == "big_witness":
+        tx.txs_in[0].witness = [b"\x00" * op[1]]
+    else:
+        raise AssertionError("unknown op %r" % (op,))
+
+
+def small_history(net, T, d, steps, rec, rng=None, n_steps=0):
+    """one Tx object, edited in place between check() calls: the verdict must follow the object's current fields. `steps` are replayed;
+    with an rng, n_steps more are drawn."""
+    MAX = MAXES[net]
+    tx = G.to_pycoin(T, d)
+    done = []
+    case = {"net": net, "start": G.pack(d), "steps": done}
+    _judge_live(net, T, tx, rec, [], case=case)
+    todo = [list(op) for op in steps]
+    for k in range(len(todo) + n_steps):
+        op = todo[k] if k < len(todo) else _pick_small_op(rng, tx, MAX)
+        if op is None:
+            continue
+        _apply_small(T, tx, op)
+        done.append(op)
+        _judge_live(net, T, tx, rec, [o[0] for o in done], case=case)
+
+
 def history_cases(net, T, rng, rec, n):
-    """one Tx object, edited in place between check() calls: the verdict must follow the object's current fields"""
     MAX = MAXES[net]
     for _ in range(n):
         d = _wellformed_random(rng, MAX)
         if not d["ins"] or not d["outs"]:
             continue
-        tx = G.to_pycoin(T, d)
-        hist = []
-        _judge_live(net, T, tx, rec, hist)
-        for step in range(rng.randrange(2, 7)):
-            e = rng.choice(["grow_script", "shrink_script", "add_out", "pop_out", "value_hi", "value_ok", "dup_in", "undup_in", "null_in", "unnull_in",
-                            "big_witness", "grow_out_script"])
-            if e == "grow_script":
-                tx.txs_in[0].script = b"\x51" * rng.choice([LIMIT - 200, LIMIT, LIMIT + 10])
-            elif e == "shrink_script":
-                tx.txs_in[0].script = b"\x51" * rng.choice([0, 5, 100])
-            elif e == "grow_out_script":
-                tx.txs_out[-1].script = b"\x6a" * rng.choice([LIMIT - 300, LIMIT + 1])
-            elif e == "add_out":
-                tx.txs_out.append(T.TxOut(rng.choice([0, 1, MAX, MAX + 1, 5000]), b"\x51"))
-            elif e == "pop_out" and len(tx.txs_out) > 1:
-                tx.txs_out.pop()
-            elif e == "value_hi":
-                tx.txs_out[0].coin_value = rng.choice([MAX + 1, MAX, -1])
-            elif e == "value_ok":
-                for o in tx.txs_out:
-                    o.coin_value = rng.choice([0, 1, 1000])
-            elif e == "dup_in":
-                t0 = tx.txs_in[rng.randrange(len(tx.txs_in))]
-                tx.txs_in.append(T.TxIn(t0.previous_hash, t0.previous_index, b"\x51", 7))
-            elif e == "undup_in" and len(tx.txs_in) > 1:
-                tx.txs_in.pop()
-            elif e == "null_in":
-                k = rng.randrange(len(tx.txs_in))
-                tx.txs_in[k].previous_hash, tx.txs_in[k].previous_index = G.NULL_HASH, G.NULL_INDEX
-            elif e == "unnull_in":
-                for k, ti in enumerate(tx.txs_in):
-                    if ti.previous_hash == G.NULL_HASH:
-                        ti.previous_hash = bytes([k + 1]) * 32
-            elif e == "big_witness":
-                tx.txs_in[0].witness = [b"\x00" * rng.choice([10, LIMIT])]
-            else:
-                continue
-            hist.append(e)
-            _judge_live(net, T, tx, rec, hist)
+        small_history(net, T, d, [], rec, rng=rng, n_steps=rng.randrange(2, 7))
 
 
 def run_shard(spec, rec):
     nets = _nets(rec)
     kind = spec["kind"]
-    if kind != "history":
+    if kind not in ("history", "bighist"):
         rec.require("Tx.check", "Tx.is_coinbase", "purity_snapshot.returning", "purity_snapshot.raising", "expected_accept")
     if kind == "sweep":
         net = spec["net"]
@@ -574,6 +1203,43 @@ def run_shard(spec, rec):
             _check_one(net, nets[net], d, rec, label=label)
         return
     rng = shard_rng(spec["seed"], PROPERTY, spec["tier"], spec["shard"])
+    if kind == "sizeclass":
+        rec.require("purity_snapshot.raising", "purity_snapshot.returning")
+        if min(spec["classes"]) <= 2000:
+            rec.require("Tx.check(second)")
+        k = rng.randrange(len(NETS))
+        for label, rc, umode in purity_recipes(spec["classes"], full=spec["full"]):
+            k += 1
+            net = NETS[k % len(NETS)]
+            rc["tag"] = rc.get("tag", 0) + 10007 * (spec["seed"] % 1000)
+            _run_recipe(net, nets[net], rc, rec, label, unspents=umode, second=max(rc["n_in"], rc["n_out"]) <= 2000,
+                        via=("attr", "attr", "from_bin")[k % 3])
+        return
+    if kind == "kinds":
+        for kd, net, light in spec["jobs"]:
+            k = 0
+            for label, rc in kind_recipes(kd, MAXES[net], light=light):
+                k += 1
+                _run_recipe(net, nets[net], rc, rec, kd + ": " + label, unspents=("full", False, "holes")[k % 3], second=(k % 4 == 0),
+                            via=("attr", "from_bin", "attr", "tuple", "attr")[k % 5])
+        return
+    if kind == "sizekinds":
+        rec.require("expected_accept.at_size_limit", "expected_reject.stripped_size_over_limit")
+        for kd, net, stripped_only in spec["jobs"]:
+            for label, rc in size_kind_recipes(kd):
+                if stripped_only and not label.startswith("stripped"):
+                    continue
+                _run_recipe(net, nets[net], rc, rec, kd + ": " + label, unspents=False)
+        return
+    if kind == "bighist":
+        rec.require("Tx.check(history)", "purity_snapshot(history).returning", "purity_snapshot(history).raising")
+        for j, n_in in enumerate(spec["sizes"]):
+            steps = spec["steps"][j]
+            net = NETS[(j + rng.randrange(5)) % len(NETS)]
+            rc = {"n_in": n_in, "n_out": 3, "order": rng.choice(["rand", "rand", "asc", "desc"]), "wit": rng.choice(["none", "odd", "last"]),
+                  "tag": rng.randrange(10 ** 6)}
+            big_history(net, nets[net], rc, _rand_live_ops(rng, n_in, steps), rec, unspents=rng.choice(["full", "full", "holes", False]))
+        return
     if kind == "history":
         rec.require("Tx.check(history)")
         for net in ("BTC", "GRS", "LTC"):
@@ -594,14 +1260,26 @@ def run_shard(spec, rec):
         for kd in kinds:
             if d["ins"] and d["outs"]:
                 d = _inject(d, kd, rng, MAX)
-        _check_one(net, nets[net], d, rec, with_unspents=rng.random() < 0.2)
+        _check_one(net, nets[net], d, rec, with_unspents=rng.choice([False, False, False, False, False, False, False, "full", "full", "holes", "short"]),
+                   full_snapshot=(i % 16 == 0), second=(i % 32 == 5), via=VIAS[i % len(VIAS)])
         if i == 3 and len(R.serialize(d) if serialisable(d) else b"x" * 999) < 400:
             rec.sample({"class": net, "tx": G.pack(d), "defects": defects(d, MAX), "injected": kinds})
 
 
 def replay_case(case, rec):
     nets = _nets(rec)
-    d = G.unpack(case["tx"])
     net = case.get("net", "BTC")
-    _check_one(net, nets[net], d, rec, label=case.get("label"))
-    _check_one(net, nets[net], d, rec, label=case.get("label"), with_unspents=True)
+    if "recipe" in case:
+        _run_recipe(net, nets[net], case["recipe"], rec, case.get("label"), unspents=case.get("unspents") or False, second=bool(case.get("second")),
+                    via=case.get("via", "attr"))
+        return
+    if "start" in case:
+        small_history(net, nets[net], G.unpack(case["start"]), case["steps"], rec)
+        return
+    if "live" in case:
+        lv = case["live"]
+        big_history(net, nets[net], lv["recipe"], lv["ops"], rec, unspents=lv.get("unspents") or False)
+        return
+    d = G.unpack(case["tx"])
+    _check_one(net, nets[net], d, rec, label=case.get("label"), via=case.get("via", "attr"))
+    _check_one(net, nets[net], d, rec, label=case.get("label"), with_unspents=True, second=True, via=case.get("via", "attr"))
